@@ -6,10 +6,11 @@ package main
 import "sort"
 
 // renderOut is what every renderer returns.
-//   Unsupported: constructs the format cannot express (the schema text is then empty);
-//   Notes: constructs that were rendered with legitimate keywords of the format but that cog's
-//          front-end is known to drop or to read differently ("lossy"); callers may skip such
-//          cases or keep them to exhibit the loss.
+//
+//	Unsupported: constructs the format cannot express (the schema text is then empty);
+//	Notes: constructs that were rendered with legitimate keywords of the format but that cog's
+//	       front-end is known to drop or to read differently ("lossy"); callers may skip such
+//	       cases or keep them to exhibit the loss.
 type renderOut struct {
 	Text        string
 	RefText     string // schema text for the reference validator when it must differ from Text ("" = use Text)
